@@ -5,8 +5,8 @@
 
 use crate::Uint;
 use parity_scale_codec::{
-    Compact, CompactAs, Decode, Encode, EncodeAsRef, EncodeLike, Error, HasCompact, Input,
-    MaxEncodedLen, Output,
+    Compact, CompactAs, CompactLen, Decode, Encode, EncodeAsRef, EncodeLike, Error, HasCompact,
+    Input, MaxEncodedLen, Output,
 };
 
 #[allow(unused_imports)]
@@ -30,7 +30,10 @@ impl<const BITS: usize, const LIMBS: usize> Encode for Uint<BITS, LIMBS> {
 
 impl<const BITS: usize, const LIMBS: usize> MaxEncodedLen for Uint<BITS, LIMBS> {
     fn max_encoded_len() -> usize {
-        core::mem::size_of::<Self>()
+        // Encoded as a byte vector: compact length prefix plus the bytes.
+        #[allow(clippy::cast_possible_truncation)] // BYTES fits u32.
+        let prefix = Compact::<u32>::compact_len(&(Self::BYTES as u32));
+        prefix + Self::BYTES
     }
 }
 
